@@ -38,6 +38,14 @@ def attempt : Option Bool → Att
   | some true => .unreachable
   | some false => .failed
 
+/-- `Stop()` after a start that reported success: `stop()` finds `stopFunc` set (it is set by the
+attempt and only cleared by `stop()` itself), cancels, waits for `stopped` — closed whether
+ListenAndServe is still serving or has already returned on its own — and the OnStopped hooks run.
+`started`: Start returned nil; `died`: the listeners went away by themselves afterwards. -/
+def stopHooks (started died : Bool) : Nat :=
+  let _ := died
+  if started then 1 else 0
+
 def Res.str : Res → String
   | .started => "started" | .error => "error" | .waiting => "waiting"
 
